@@ -1,0 +1,203 @@
+//! Verification-only access to crate-private parts of the default implementation.
+//! Compiled only with `--cfg oxfordcontrol_clarabel_rs_verif`.  Add-only: every item
+//! forwards to (or reads/writes a field of) the real implementation.
+#![allow(non_snake_case, missing_docs)]
+use super::*;
+use crate::algebra::*;
+use crate::solver::core::SolverStatus;
+use crate::solver::SupportedConeT;
+
+/// public newtype around the crate-private `Presolver`
+pub struct VPresolver<T>(pub(crate) Presolver<T>);
+
+impl<T: FloatT> VPresolver<T> {
+    pub fn new(
+        A: &CscMatrix<T>,
+        b: &[T],
+        cones: &[SupportedConeT<T>],
+        settings: &DefaultSettings<T>,
+    ) -> Self {
+        Self(Presolver::new(A, b, cones, settings))
+    }
+    /// build a presolver directly from its plain-data fields (no module-level state involved)
+    pub fn from_parts(cones: &[SupportedConeT<T>], keep_logical: Option<Vec<bool>>, mfull: usize, mreduced: usize, infbound: f64) -> Self {
+        Self(Presolver {
+            _init_cones: cones.to_vec(),
+            reduce_map: keep_logical.map(|keep_logical| PresolverRowReductionIndex { keep_logical }),
+            mfull,
+            mreduced,
+            infbound,
+        })
+    }
+    pub fn is_reduced(&self) -> bool {
+        self.0.is_reduced()
+    }
+    pub fn count_reduced(&self) -> usize {
+        self.0.count_reduced()
+    }
+    pub fn mfull(&self) -> usize {
+        self.0.mfull
+    }
+    pub fn mreduced(&self) -> usize {
+        self.0.mreduced
+    }
+    pub fn infbound(&self) -> f64 {
+        self.0.infbound
+    }
+    pub fn keep_logical(&self) -> Option<&[bool]> {
+        self.0.reduce_map.as_ref().map(|m| m.keep_logical.as_slice())
+    }
+    pub fn presolve(
+        &self,
+        A: &CscMatrix<T>,
+        b: &[T],
+        cones: &[SupportedConeT<T>],
+    ) -> (CscMatrix<T>, Vec<T>, Vec<SupportedConeT<T>>) {
+        self.0.presolve(A, b, cones)
+    }
+    pub fn reverse_presolve(&self, solution: &mut DefaultSolution<T>, variables: &DefaultVariables<T>) {
+        self.0.reverse_presolve(solution, variables)
+    }
+    /// install this presolver into a problem data object (as `DefaultProblemData::new` does)
+    pub fn install(self, data: &mut DefaultProblemData<T>) {
+        data.presolver = Some(self.0);
+    }
+}
+
+pub fn data_presolver_keep_logical<T: FloatT>(data: &DefaultProblemData<T>) -> Option<&[bool]> {
+    data.presolver
+        .as_ref()
+        .and_then(|p| p.reduce_map.as_ref().map(|m| m.keep_logical.as_slice()))
+}
+pub fn data_presolver_dims<T: FloatT>(data: &DefaultProblemData<T>) -> Option<(usize, usize, f64)> {
+    data.presolver.as_ref().map(|p| (p.mfull, p.mreduced, p.infbound))
+}
+pub fn data_is_presolved<T: FloatT>(data: &DefaultProblemData<T>) -> bool {
+    data.is_presolved()
+}
+pub fn data_get_normq<T: FloatT>(data: &mut DefaultProblemData<T>) -> T {
+    data.get_normq()
+}
+pub fn data_get_normb<T: FloatT>(data: &mut DefaultProblemData<T>) -> T {
+    data.get_normb()
+}
+pub fn data_clear_normq<T: FloatT>(data: &mut DefaultProblemData<T>) {
+    data.clear_normq()
+}
+pub fn data_clear_normb<T: FloatT>(data: &mut DefaultProblemData<T>) {
+    data.clear_normb()
+}
+
+/// the six `prev_*` fields of DefaultInfo, in declaration order
+pub fn info_get_prev<T: FloatT>(info: &DefaultInfo<T>) -> [T; 6] {
+    [
+        info.prev_cost_primal,
+        info.prev_cost_dual,
+        info.prev_res_primal,
+        info.prev_res_dual,
+        info.prev_gap_abs,
+        info.prev_gap_rel,
+    ]
+}
+pub fn info_set_prev<T: FloatT>(info: &mut DefaultInfo<T>, p: [T; 6]) {
+    info.prev_cost_primal = p[0];
+    info.prev_cost_dual = p[1];
+    info.prev_res_primal = p[2];
+    info.prev_res_dual = p[3];
+    info.prev_gap_abs = p[4];
+    info.prev_gap_rel = p[5];
+}
+pub fn info_print_to_sink<T: FloatT>(info: &mut DefaultInfo<T>) {
+    info.stream = crate::io::PrintTarget::Sink(std::io::sink());
+}
+pub fn info_print_to_buffer<T: FloatT>(info: &mut DefaultInfo<T>) {
+    info.stream = crate::io::PrintTarget::Buffer(Vec::new());
+}
+pub fn info_buffer_len<T: FloatT>(info: &DefaultInfo<T>) -> Option<usize> {
+    match &info.stream {
+        crate::io::PrintTarget::Buffer(b) => Some(b.len()),
+        _ => None,
+    }
+}
+/// a DefaultInfo that never touches std::io::stdout()
+pub fn info_new_sink<T: FloatT>() -> DefaultInfo<T> {
+    DefaultInfo {
+        μ: T::zero(),
+        sigma: T::zero(),
+        step_length: T::zero(),
+        iterations: 0,
+        cost_primal: T::zero(),
+        cost_dual: T::zero(),
+        res_primal: T::zero(),
+        res_dual: T::zero(),
+        res_primal_inf: T::zero(),
+        res_dual_inf: T::zero(),
+        gap_abs: T::zero(),
+        gap_rel: T::zero(),
+        ktratio: T::zero(),
+        prev_cost_primal: T::zero(),
+        prev_cost_dual: T::zero(),
+        prev_res_primal: T::zero(),
+        prev_res_dual: T::zero(),
+        prev_gap_abs: T::zero(),
+        prev_gap_rel: T::zero(),
+        solve_time: 0f64,
+        status: SolverStatus::Unsolved,
+        linsolver: crate::solver::core::kktsolvers::LinearSolverInfo {
+            name: String::new(),
+            threads: 0,
+            direct: true,
+            nnzA: 0,
+            nnzL: 0,
+        },
+        stream: crate::io::PrintTarget::Sink(std::io::sink()),
+    }
+}
+
+/// scalar fields of DefaultResiduals: (rτ, dot_qx, dot_bz, dot_sz, dot_xPx)
+pub fn residuals_get_scalars<T: FloatT>(r: &DefaultResiduals<T>) -> [T; 5] {
+    [r.rτ, r.dot_qx, r.dot_bz, r.dot_sz, r.dot_xPx]
+}
+pub fn residuals_set_scalars<T: FloatT>(r: &mut DefaultResiduals<T>, v: [T; 5]) {
+    r.rτ = v[0];
+    r.dot_qx = v[1];
+    r.dot_bz = v[2];
+    r.dot_sz = v[3];
+    r.dot_xPx = v[4];
+}
+/// vector fields of DefaultResiduals: (rx, rz, rx_inf, rz_inf, Px)
+pub fn residuals_vectors<T: FloatT>(r: &DefaultResiduals<T>) -> (&[T], &[T], &[T], &[T], &[T]) {
+    (&r.rx, &r.rz, &r.rx_inf, &r.rz_inf, &r.Px)
+}
+pub fn residuals_vectors_mut<T: FloatT>(
+    r: &mut DefaultResiduals<T>,
+) -> (&mut [T], &mut [T], &mut [T], &mut [T], &mut [T]) {
+    (&mut r.rx, &mut r.rz, &mut r.rx_inf, &mut r.rz_inf, &mut r.Px)
+}
+
+pub fn variables_unscale<T: FloatT>(v: &mut DefaultVariables<T>, data: &DefaultProblemData<T>, is_infeasible: bool) {
+    v.unscale(data, is_infeasible)
+}
+
+pub fn status_is_infeasible(s: SolverStatus) -> bool {
+    s.is_infeasible()
+}
+pub fn status_is_errored(s: SolverStatus) -> bool {
+    s.is_errored()
+}
+
+/// a DefaultSolution without NaN placeholders (for scalar types that have no NaN)
+pub fn solution_new_plain<T: FloatT>(n: usize, m: usize) -> DefaultSolution<T> {
+    DefaultSolution {
+        x: vec![T::zero(); n],
+        z: vec![T::zero(); m],
+        s: vec![T::zero(); m],
+        status: SolverStatus::Unsolved,
+        obj_val: T::zero(),
+        obj_val_dual: T::zero(),
+        solve_time: 0f64,
+        iterations: 0,
+        r_prim: T::zero(),
+        r_dual: T::zero(),
+    }
+}
